@@ -5,8 +5,8 @@ props=${@:-C01 C02 C03 C04 C05 C06 C07 C08 C09 C10 C11 C12 C13 C14 C15 C16 C17 C
 cd "$(dirname "$0")/.." || exit 2
 for p in $props; do
   s=$(date +%s)
-  VERIF_SEED=$seed ./check $p --tier $tier > /tmp/run_all.$p.out 2>&1; rc=$?
+  VERIF_SEED=$seed ./check $p --tier $tier > /tmp/run_all.$tier.$seed.$p.out 2>&1; rc=$?
   e=$(( $(date +%s) - s ))
-  echo "$p rc=$rc ${e}s $(tail -1 /tmp/run_all.$p.out | cut -c1-170)"
-  grep -E "^VIOLATION|^INCONCLUSIVE|signature:" /tmp/run_all.$p.out | head -6
+  echo "$p rc=$rc ${e}s $(tail -1 /tmp/run_all.$tier.$seed.$p.out | cut -c1-170)"
+  grep -E "^VIOLATION|^INCONCLUSIVE|signature:" /tmp/run_all.$tier.$seed.$p.out | head -6
 done
